@@ -1,8 +1,8 @@
 """C14 -- unsupported models are rejected, accepted models load consistently.
 
-R14.1 [must-call]   every path through each native pipeline.init calls
-                    mjcf.validate_model(sys.mj_model) before any other brax call,
-                    unless the path assumes sys.mj_model is None.
+R14.1 [must-call]   every path to a return of each native pipeline.init calls
+                    mjcf.validate_model(sys.mj_model), unless the path assumes
+                    sys.mj_model is None.
 R14.2 [FIN]         the path-condition table of validate_model's raises covers the
                     18 rows of specs/c14_validate.json (feature -> guard).
 R14.4 [tables]      link-type alphabet / widths / dispatch tables agree; loader field
@@ -60,18 +60,18 @@ def r14_1(U, rep):
       if p.exit == 'raise':
         continue
       nret += 1
+      # must-call: validate_model(sys.mj_model) somewhere on the path to the return -- it raises for an
+      # unsupported model wherever on the path it sits, so its position among the other calls is free
       first = None
-      for c in p.calls():
-        if _is_brax_call(c, f.mod) or (dotted(c.func) and dotted(c.func)[-1] == 'validate_model'):
-          first = c
-          break
       ok = False
-      if first is not None:
-        n = call_name(first, f.mod) or ''
+      for c in p.calls():
+        n = call_name(c, f.mod) or ''
         if n.endswith('.validate_model') or n == 'validate_model':
-          arg = first.args[0] if first.args else None
+          arg = c.args[0] if c.args else None
           if arg is not None and dotted(arg) == [sysname, 'mj_model']:
             ok = True
+            first = c
+            break
       if not ok:
         # allowed only if the path assumes sys.mj_model is None
         env = pred.Env(params, f.mod)
@@ -89,12 +89,12 @@ def r14_1(U, rep):
           break
     key = '%s.pipeline.init' % b
     if bad is None:
-      rep.ok('R14.1', key, construct='validate_model(%s.mj_model) first brax call on %d return paths'
+      rep.ok('R14.1', key, construct='validate_model(%s.mj_model) called on each of the %d return paths'
              % (sysname, nret), where=f.where())
     else:
       p, first = bad
       rep.fail('R14.1', key,
-               'a path to %s reaches %s without first calling validate_model(%s.mj_model) '
+               'a path to %s reaches %s without calling validate_model(%s.mj_model) '
                '(path conditions: %s)' % (
                    p.exit, ('`%s`' % ast.unparse(first.func)) if first is not None else 'the exit',
                    sysname, '; '.join('%s=%s' % (ast.unparse(c[0]), c[1]) for c in p.conds
